@@ -116,7 +116,7 @@ class ParallelMovPattern(RewritePattern):
             riscv.RISCVRegisterType, SSAValue[riscv.RISCVRegisterType]
         ] = {}
         leaves = set(dst_types)
-        unprocessed_children = Counter[SSAValue]()
+        unprocessed_children = Counter[riscv.RISCVRegisterType]()
 
         for idx, src, dst in zip(range(num_operands), srcs, dsts, strict=True):
             if dst.type == riscv.Registers.ZERO and src.type != dst.type:
@@ -135,7 +135,7 @@ class ParallelMovPattern(RewritePattern):
                 results[idx] = src
             else:
                 src_by_dst_type[dst.type] = src
-                unprocessed_children[src] += 1
+                unprocessed_children[src.type] += 1
 
         for dst_type in dst_types:
             if dst_type not in leaves:
@@ -147,9 +147,9 @@ class ParallelMovPattern(RewritePattern):
                 # sanity check since we should only have 1 result per output
                 assert results[output_index[dst_type]] is None
                 results[output_index[dst_type]] = mvop.results[0]
-                unprocessed_children[src] -= 1
+                unprocessed_children[src.type] -= 1
                 # only continue up the tree if all children were processed
-                if unprocessed_children[src]:
+                if unprocessed_children[src.type]:
                     break
                 dst_type = src.type
 
